@@ -82,11 +82,10 @@ public:
     const auto & y = static_cast<const _Derived &>(*this).coeffs().x();
 
     using std::atan2;
-    if (y <= 0.) {
-      return atan2(y, x);
-    } else {
-      return atan2(-y, -x) - Scalar(M_PI);
-    }
+    // principal angle in [-pi, pi]; every strictly positive value (including the +pi that atan2
+    // returns on the negative real axis for y = +0) is moved one turn down into [-2pi, 0]
+    const Scalar a = atan2(y, x);
+    return a > Scalar(0) ? a - Scalar(2 * M_PI) : a;
   }
 
   /**
@@ -98,11 +97,10 @@ public:
     const auto & y = static_cast<const _Derived &>(*this).coeffs().x();
 
     using std::atan2;
-    if (y >= 0.) {
-      return atan2(y, x);
-    } else {
-      return Scalar(M_PI) + atan2(-y, -x);
-    }
+    // principal angle in [-pi, pi]; every strictly negative value (including the -pi that atan2
+    // returns on the negative real axis for y = -0) is moved one turn up into [0, 2pi]
+    const Scalar a = atan2(y, x);
+    return a < Scalar(0) ? a + Scalar(2 * M_PI) : a;
   }
 
   /**
